@@ -1,8 +1,11 @@
 """C08 — names resolve by unique dotted suffix, identically through every API."""
+import contextlib
+import enum
 import itertools
+import re
 
 from vf import models, probes
-from vf.teq import teq
+from vf.teq import teq, teq_unordered_dict
 
 ID = 'C08'
 LEVEL = 'exploration'
@@ -11,7 +14,13 @@ RULE = ('(map) random SelectorMap histories (insert/overwrite/pop/copy-then-dive
         'suffix-resolution model over the whole universe, tree/flat-map agreement is walked, copies are checked for independence; '
         'thorough adds exhaustive enumeration of all subsets (size<=4) of the 14-name universe {a,b}^<=3 x all insertion orders x '
         'every single pop. (api) probes registered under module paths sharing suffixes; a value written through one spelling/API '
-        'is read through another; ambiguous/unknown spellings; two finalize hooks returning one parameter under two spellings. '
+        'is read through another (also through the function object itself); ambiguous/unknown spellings through every route; two '
+        'finalize hooks returning one parameter under two spellings; section names of config_str/operative_config_str resolve back '
+        'and are shortest. (history) a fresh family is registered one member at a time (module paths sharing suffixes, one complete '
+        'name a dotted suffix of another): after every registration every spelling of the universe and every spelling used before is '
+        're-judged by the model through the routes, the store is compared with a model store. (const) constants under module paths '
+        'sharing suffixes (gin.constant / constants_from_enum), read through %name in flat/block/list/scoped bindings, query_parameter '
+        'and get_bindings, before and after a later definition. SelectorMap values include falsy ones. '
         'distinct = (kind, op-kind sequence shape, name-set suffix structure) / (write api, read api, spelling pair class)')
 TIERS = {
     'quick': {'workers': 8, 'cases': 2000, 'timeout': 600, 'exhaustive': False},
@@ -23,10 +32,26 @@ REQUIRED_BUCKETS = ['map:insert', 'map:overwrite', 'map:pop', 'map:copy', 'map:c
                     'api:write:str', 'api:write:tuple', 'api:write:text', 'api:write:block',
                     'api:read:query', 'api:read:get_bindings', 'api:read:call', 'api:read:reference', 'api:ambiguous', 'api:unknown',
                     'api:hooks-same-param-different-spelling', 'api:one-hook-same-param-two-spellings', 'api:hooks-distinct-params', 'api:spellings-differ', 'api:explicit-macro-reference',
-                    'api:class-registered-twice', 'api:method-with-class-module']
+                    'api:class-registered-twice', 'api:method-with-class-module',
+                    'map:falsy-value-read', 'map:getitem',
+                    'api:read:obj-bindings', 'api:read:obj-call', 'api:ambiguous:get_bindings', 'api:unknown:get_bindings',
+                    'api:unknown:reference', 'api:config-str-section', 'api:operative-config-str-section',
+                    'api:config-str-minimal-shorter-than-full',
+                    'hist:registration', 'hist:spelling-became-ambiguous', 'hist:spelling-moved-to-other-entry',
+                    'hist:spelling-still-good', 'hist:exact-name-is-suffix-of-other', 'hist:unknown', 'hist:ambiguous',
+                    'hist:object-spelling', 'hist:config-str-full-name-needed', 'hist:config-str-bare-name-suffices',
+                    'const:define:constant', 'const:define:enum', 'const:unique', 'const:ambiguous', 'const:unknown',
+                    'const:spelling-became-ambiguous', 'const:falsy-value']
 ORACLE_COUNTERS = ['oracle_evals', 'map_queries', 'api_roundtrips']
 ASSUMPTIONS = ['private _selector_tree/_selector_map are walked for the agreement invariant when present']
 ALPHA = ['a', 'b', 'c']
+FALSY = [0, None, '', False, (), 0.0]   # stored values that a truthiness test would mistake for "absent"
+_UNIQ = itertools.count()
+
+
+def same(a, b):
+  """The very value: same type, same repr (0, False, 0.0, '' and None stay apart)."""
+  return a is b or (type(a) is type(b) and repr(a) == repr(b))
 
 
 def universe(alpha, depth):
@@ -67,7 +92,8 @@ def tree_has_empty_node(tree, root=True):
 def check_map(ctx, sm, model, queries, label):
   names = set(model)
   ctx.check(len(sm) == len(model), 'map-len', '%s: len %d != model %d' % (label, len(sm), len(model)))
-  ctx.check(dict(sm.items()) == model, 'map-items', '%s: items %r != model %r' % (label, dict(sm.items()), model))
+  items = dict(sm.items())
+  ctx.check(len(items) == len(model) and all(n in items and same(items[n], model[n]) for n in model), 'map-items', '%s: items %r != model %r' % (label, items, model))
   tree = getattr(sm, '_selector_tree', None)
   if tree is not None:
     terms = tree_terminals(tree)
@@ -82,7 +108,13 @@ def check_map(ctx, sm, model, queries, label):
     ctx.check(sorted(got) == exp and len(got) == len(set(got)), 'matching-selectors',
               '%s: matching_selectors(%r)=%r model %r (stored %r)' % (label, q, got, exp, sorted(names)))
     ctx.check((q in sm) == (q in names), 'contains', '%s: %r in map = %r' % (label, q, q in sm))
-    ctx.check(sm.get(q, 'DFLT') == model.get(q, 'DFLT'), 'get', '%s: get(%r)' % (label, q))
+    ctx.check(same(sm.get(q, 'DFLT'), model.get(q, 'DFLT')), 'get', '%s: get(%r, default)' % (label, q))
+    if q in names:  # a complete stored name resolves to exactly that entry, whatever the value
+      ctx.bucket('map:getitem')
+      try:
+        ctx.check(same(sm[q], model[q]), 'getitem', '%s: map[%r] is not the stored %r' % (label, q, model[q]))
+      except Exception as e:  # pylint: disable=broad-except
+        ctx.check(False, 'getitem', '%s: map[%r] raised %s' % (label, q, type(e).__name__))
     try:
       gm = ('ok', sm.get_match(q, 'DFLT'))
     except KeyError:
@@ -92,13 +124,15 @@ def check_map(ctx, sm, model, queries, label):
       em = ('ambiguous',)
     elif len(exp) == 1:
       em = ('ok', model[exp[0]])
+      if not model[exp[0]]:
+        ctx.bucket('map:falsy-value-read')
       if q in names and any(n != q and n.endswith('.' + q) for n in names):
         ctx.bucket('map:exact-precedence')
     else:
       em = ('ok', 'DFLT')
-    ctx.check(gm == em, 'get-match', '%s: get_match(%r)=%r model %r (stored %r)' % (label, q, gm, em, sorted(names)))
+    ctx.check(gm[0] == em[0] and (len(em) == 1 or same(gm[1], em[1])), 'get-match', '%s: get_match(%r)=%r model %r (stored %r)' % (label, q, gm, em, sorted(names)))
     gam = sm.get_all_matches(q)
-    ctx.check(sorted(map(repr, gam)) == sorted(repr(model[n]) for n in exp), 'get-all-matches',
+    ctx.check(sorted(map(repr, gam)) == sorted(repr(model[n]) for n in exp), 'get-all-matches',   # (reprs of the FALSY values differ)
               '%s: get_all_matches(%r)=%r' % (label, q, gam))
     if q in names:
       ms = sm.minimal_selector(q)
@@ -130,7 +164,8 @@ def gen_map_case(rng):
     k = rng.random()
     tgt = rng.randrange(3)  # which map object (after copies)
     if k < 0.5:
-      ops.append(['set', tgt, rng.choice(pool)])
+      # the stored value: mostly a fresh tuple, sometimes a falsy value (index into FALSY)
+      ops.append(['set', tgt, rng.choice(pool), rng.randrange(len(FALSY)) if rng.random() < 0.3 else None])
     elif k < 0.72:
       ops.append(['pop', tgt, rng.choice(pool)])
     elif k < 0.86:
@@ -158,7 +193,7 @@ def run_map(ctx, case):
       ctx.bucket('map:overwrite' if name in model else 'map:insert')
       if any(n != name and (n.endswith('.' + name) or name.endswith('.' + n)) for n in model):
         ctx.bucket('map:name-suffix-of-other')
-      v = ('v', next(counter))
+      v = ('v', next(counter)) if len(op) < 4 or op[3] is None else FALSY[op[3]]
       sm[name] = v
       model[name] = v
     elif kind == 'pop':
@@ -167,7 +202,7 @@ def run_map(ctx, case):
         ctx.bucket('map:pop')
         before = len(tree_terminals(getattr(sm, '_selector_tree', {})))
         got = sm.pop(name)
-        ctx.check(got == model.pop(name), 'pop-value', 'pop(%r) returned %r' % (name, got))
+        ctx.check(same(got, model.pop(name)), 'pop-value', 'pop(%r) returned %r' % (name, got))
         if not any(n.endswith('.' + name.split('.')[-1]) or n == name.split('.')[-1] for n in model):
           ctx.bucket('map:pop-prunes')
       else:
@@ -220,9 +255,8 @@ def exhaustive_map(ctx):
       for order in itertools.permutations(subset):
         sm = selector_map.SelectorMap()
         model = {}
-        for name in order:
-          sm[name] = ('v', name)
-          model[name] = ('v', name)
+        for k, name in enumerate(order):
+          sm[name] = model[name] = ('v', name) if k % 2 else FALSY[(k // 2 + len(name)) % len(FALSY)]
         check_map(ctx, sm, model, uni, 'exh insert %r' % (order,))
         ctx.count('exhaustive_histories')
         for victim in order:
@@ -277,10 +311,137 @@ def spellings(full, allnames):
   return good, bad
 
 
+def scope_ctx(gin, sc):
+  return gin.config_scope(sc) if sc else contextlib.nullcontext()
+
+
+def write_binding(gin, how, sc, spelling, prm, value):
+  pre = sc + '/' if sc else ''
+  if how == 'str':
+    gin.bind_parameter(pre + spelling + '.' + prm, value)
+  elif how == 'tuple':
+    gin.bind_parameter((sc, spelling, prm), value)
+  elif how == 'text':
+    gin.parse_config('%s%s.%s = %r' % (pre, spelling, prm, value))
+  else:
+    gin.parse_config('%s%s:\n  %s = %r\n' % (pre, spelling, prm, value))
+
+
+def ambiguous_routes(gin, sc, b, prm):
+  """Every route through which the (ambiguous) name `b` can be handed to gin; each must reject it.
+  (label, call, parses text): the routes that parse text cost about ten times the others, see probe_ambiguous."""
+  pre = sc + '/' if sc else ''
+  return [('bind', lambda: gin.bind_parameter(pre + b + '.' + prm, 1), False),
+          ('parse', lambda: gin.parse_config('%s%s.%s = 1' % (pre, b, prm)), True),
+          ('query', lambda: gin.query_parameter(pre + b + '.' + prm), False),
+          ('get_configurable', lambda: gin.get_configurable(b), False),
+          ('reference', lambda: gin.parse_config('c8cons.v = @%s' % b), True),
+          # an ambiguous name is not an unknown one: permission to skip unknown names does not cover it
+          ('parse with skip_unknown=True', lambda: gin.parse_config('%s%s.%s = 1' % (pre, b, prm), skip_unknown=True), True),
+          ('parse with skip_unknown=[name]', lambda: gin.parse_config('%s%s.%s = 1' % (pre, b, prm), skip_unknown=[b]), True),
+          ('block with skip_unknown=True', lambda: gin.parse_config('%s%s:\n  %s = 1\n' % (pre, b, prm), skip_unknown=True), True),
+          ('reference with skip_unknown=True', lambda: gin.parse_config('c8cons.v = @%s()' % b, skip_unknown=True), True),
+          ('block', lambda: gin.parse_config('%s%s:\n  %s = 1\n' % (pre, b, prm)), True),
+          ('scoped evaluated reference', lambda: gin.parse_config('c8cons.v = @s/%s()' % b), True),
+          ('bind tuple', lambda: gin.bind_parameter((sc, b, prm), 1), False),
+          ('get_bindings', lambda: gin.get_bindings(pre + b), False),
+          ('get_bindings unscoped, unresolved', lambda: gin.get_bindings(b, resolve_references=False), False),
+          ('get_configurable scoped', lambda: gin.get_configurable('s/' + b), False)]
+
+
+def unknown_routes(gin, sc, b, prm):
+  """(label, call, class established): routes for a name matching nothing.  The last four were added later: any exception is
+  accepted there (the statement says "reported unknown", not how)."""
+  pre = sc + '/' if sc else ''
+
+  def reference():
+    gin.parse_config('c8cons.v = @%s()' % b)    # reported when read or, at the latest, when the value is needed
+    _FAMILY['cons'].conf()
+
+  return [('bind', lambda: gin.bind_parameter(pre + b + '.' + prm, 1), True),
+          ('parse', lambda: gin.parse_config('%s%s.%s = 1' % (pre, b, prm)), True),
+          ('query', lambda: gin.query_parameter(pre + b + '.' + prm), True),
+          ('get_configurable', lambda: gin.get_configurable(b), True),
+          ('bind tuple', lambda: gin.bind_parameter((sc, b, prm), 1), False),
+          ('get_bindings', lambda: gin.get_bindings(pre + b), False),
+          ('get_configurable scoped', lambda: gin.get_configurable('s/' + b), False),
+          ('reference', reference, False)]
+
+
+def probe_ambiguous(ctx, gin, sc, b, prm, pick=None):
+  """pick=None: every route.  Otherwise every route that parses no text, and two of those that do (chosen by `pick`)."""
+  snap = snapshot(gin)
+  routes = ambiguous_routes(gin, sc, b, prm)
+  parsing = [i for i, r in enumerate(routes) if r[2]]
+  chosen = () if pick is None else (parsing[pick % len(parsing)], parsing[(pick + 3) % len(parsing)])
+  for i, (label, fn, parses) in enumerate(routes):
+    if pick is not None and parses and i not in chosen:
+      continue
+    if label.startswith('get_bindings'):
+      ctx.bucket('api:ambiguous:get_bindings')
+    try:
+      fn()
+      ctx.check(False, 'ambiguous-spelling-accepted', '%s with ambiguous spelling %r did not raise' % (label, b))
+    except Exception:  # pylint: disable=broad-except
+      ctx.count('oracle_evals')
+    ctx.check(snapshot(gin) == snap, 'ambiguous-spelling-changed-config', '%s with ambiguous %r changed the config' % (label, b))
+
+
+def probe_unknown(ctx, gin, sc, b, prm, pick=None):
+  snap = snapshot(gin)
+  for i, (label, fn, strict) in enumerate(unknown_routes(gin, sc, b, prm)):
+    if pick is not None and i not in (pick % 8, (pick + 3) % 8):
+      continue
+    if label in ('get_bindings', 'reference'):
+      ctx.bucket('api:unknown:' + label)
+    try:
+      fn()
+      ctx.check(False, 'unknown-spelling-accepted', '%s with unknown name %r did not raise' % (label, b))
+      if label == 'reference':
+        return   # (only on a broken tree) the binding to the unknown reference stays: nothing further to compare
+    except ValueError:
+      ctx.count('oracle_evals')
+    except Exception as e:  # pylint: disable=broad-except
+      ctx.check(not strict, 'unknown-name-wrong-exception', '%s with unknown %r raised %s' % (label, b, type(e).__name__))
+    ctx.check(snapshot(gin) == snap, 'unknown-spelling-changed-config', '%s with unknown %r changed the config' % (label, b))
+
+
+_SECTION = re.compile(r'^# Parameters for (.*):$', re.M)
+
+
+def check_sections(ctx, text, which, names, last, entries=None):
+  """The names config_str()/operative_config_str() report for the family whose complete names end in `.last`:
+  each resolves back to one entry and is the shortest suffix doing so."""
+  seen = []
+  for scoped in _SECTION.findall(text):
+    sc, _, sel = scoped.rpartition('/')
+    if sel.split('.')[-1] != last:
+      continue
+    ctx.bucket('api:%s-section' % which)
+    r = models.resolve_suffix(names, sel)
+    if not ctx.check(len(r) == 1, 'reported-name-does-not-resolve',
+                     '%s reports a section for %r, which resolves to %r (registered %r)' % (which, scoped, r, sorted(names))):
+      continue
+    full = r[0]
+    em = model_minimal(names, full)
+    if '.' not in em:
+      ctx.bucket('hist:config-str-bare-name-suffices')
+    if em != full:
+      ctx.bucket('api:config-str-minimal-shorter-than-full')
+    elif any(n != full and n.endswith('.' + full) for n in names):
+      ctx.bucket('hist:config-str-full-name-needed')
+    ctx.check(sel == em, 'reported-name-not-shortest', '%s reports %r for %s; the shortest suffix resolving to it is %r (registered %r)' %
+              (which, sel, full, em, sorted(names)))
+    seen.append((sc, full))
+  if entries is not None:
+    ctx.check(len(seen) == len(set(seen)) and set(seen) <= set(entries), 'reported-name-resolves-to-other-entry',
+              '%s: sections resolve to %r, entries are %r' % (which, seen, sorted(entries)))
+
+
 def gen_api_case(rng):
   return {'kind': 'api', 'target': rng.choice(['x.y', 'z.y', 'y', 'w.x.y', 'q']), 'param': rng.choice(['a', 'b']),
           'scope': rng.choice(['', '', 's', 's/t']), 'write': rng.choice(['str', 'tuple', 'text', 'block']),
-          'read': rng.choice(['query', 'get_bindings', 'call', 'reference']), 'wi': rng.randrange(8), 'ri': rng.randrange(8),
+          'read': rng.choice(['query', 'get_bindings', 'call', 'reference', 'obj-bindings', 'obj-call']), 'wi': rng.randrange(8), 'ri': rng.randrange(8),
           'hook': rng.choice([None, 'same-param', 'distinct']), 'hi': rng.randrange(8), 'hj': rng.randrange(8),
           'probe_bad': rng.choice(['ambiguous', 'unknown', None])}
 
@@ -306,19 +467,13 @@ def run_api(ctx, case):
   pre = sc + '/' if sc else ''
   value = ['val', case['wi'], case['ri']]
   ctx.bucket('api:write:' + case['write'])
-  if case['write'] == 'str':
-    gin.bind_parameter(pre + ws + '.' + prm, value)
-  elif case['write'] == 'tuple':
-    gin.bind_parameter((sc, ws, prm), value)
-  elif case['write'] == 'text':
-    gin.parse_config('%s%s.%s = %r' % (pre, ws, prm, value))
-  else:
-    gin.parse_config('%s%s:\n  %s = %r\n' % (pre, ws, prm, value))
+  write_binding(gin, case['write'], sc, ws, prm, value)
   # the store has exactly one key, the complete name
   ctx.check(list(gc._CONFIG) == [(sc, p.selector)], 'store-key-not-canonical',
             'after writing via %r the store keys are %r (expected [(%r, %r)])' % (ws, list(gc._CONFIG), sc, p.selector))
   ctx.bucket('api:read:' + case['read'])
   ctx.count('api_roundtrips')
+  rs_spelling = rs
   if case['read'] == 'query':
     got = gin.query_parameter(pre + rs + '.' + prm)
   elif case['read'] == 'get_bindings':
@@ -328,52 +483,47 @@ def run_api(ctx, case):
     fn = gin.get_configurable(pre + rs)
     fn()
     got = probes.RECORDER.since(mark, p.pid)[0].received[prm]
-  else:
+  elif case['read'] == 'reference':
     cons = _FAMILY['cons']
     gin.parse_config('c8cons.v = @%s%s()' % (pre, rs))
     mark = probes.RECORDER.mark()
     cons.conf()
     recs = probes.RECORDER.since(mark, p.pid)
     got = recs[0].received[prm] if recs else 'NOT-CALLED'
+  else:
+    # the object spelling: the function itself (or its configurable wrapper) names exactly its own entry, however many
+    # configurables share its name
+    obj = p.original if case['ri'] % 2 else p.conf
+    rs = 'object:' + ('original' if case['ri'] % 2 else 'wrapper')
+    try:
+      with scope_ctx(gin, sc):
+        if case['read'] == 'obj-bindings':
+          got = gin.get_bindings(obj, resolve_references=False).get(prm, 'MISSING')
+        else:
+          mark = probes.RECORDER.mark()
+          gin.get_configurable(obj)()
+          got = probes.RECORDER.since(mark, p.pid)[0].received[prm]
+    except Exception as e:  # pylint: disable=broad-except
+      got = 'RAISED'
+      ctx.check(False, 'object-spelling-not-resolved', '%s through the %s of %s raised %s: %s' %
+                (case['read'], rs, p.selector, type(e).__name__, str(e)[:200]))
   ctx.check(teq(got, value), 'spelling-dependent-read', 'wrote %s%s.%s via %s, read via %s/%s -> %r (expected %r)' %
             (pre, ws, prm, case['write'], case['read'], rs, got, value))
 
+  # the names reported for the entry: they resolve back to it and are the shortest that do
+  if case['hi'] % 2:
+    check_sections(ctx, gin.config_str(), 'config-str', allnames, 'dup', entries=[(sc, p.selector)])
+  elif case['read'] in ('call', 'reference', 'obj-call'):
+    check_sections(ctx, gin.operative_config_str(), 'operative-config-str', allnames, 'dup')
+
   # ambiguous / unknown spellings: error and unchanged
-  snap = snapshot(gin)
   if case['probe_bad'] == 'ambiguous' and bad:
     ctx.bucket('api:ambiguous')
-    b = bad[case['hi'] % len(bad)]
-    for label, fn in [('bind', lambda: gin.bind_parameter(pre + b + '.' + prm, 1)),
-                      ('parse', lambda: gin.parse_config('%s%s.%s = 1' % (pre, b, prm))),
-                      ('query', lambda: gin.query_parameter(pre + b + '.' + prm)),
-                      ('get_configurable', lambda: gin.get_configurable(b)),
-                      ('reference', lambda: gin.parse_config('c8cons.v = @%s' % b)),
-                      # an ambiguous name is not an unknown one: permission to skip unknown names does not cover it
-                      ('parse with skip_unknown=True', lambda: gin.parse_config('%s%s.%s = 1' % (pre, b, prm), skip_unknown=True)),
-                      ('parse with skip_unknown=[name]', lambda: gin.parse_config('%s%s.%s = 1' % (pre, b, prm), skip_unknown=[b])),
-                      ('block with skip_unknown=True', lambda: gin.parse_config('%s%s:\n  %s = 1\n' % (pre, b, prm), skip_unknown=True)),
-                      ('reference with skip_unknown=True', lambda: gin.parse_config('c8cons.v = @%s()' % b, skip_unknown=True))]:
-      try:
-        fn()
-        ctx.check(False, 'ambiguous-spelling-accepted', '%s with ambiguous spelling %r did not raise' % (label, b))
-      except Exception:  # pylint: disable=broad-except
-        ctx.count('oracle_evals')
-      ctx.check(snapshot(gin) == snap, 'ambiguous-spelling-changed-config', '%s with ambiguous %r changed the config' % (label, b))
+    probe_ambiguous(ctx, gin, sc, bad[case['hi'] % len(bad)], prm, pick=None if case['hj'] % 4 == 0 else case['hj'])
   elif case['probe_bad'] == 'unknown':
     ctx.bucket('api:unknown')
-    b = 'nosuch.' + ws
-    for label, fn in [('bind', lambda: gin.bind_parameter(pre + b + '.' + prm, 1)),
-                      ('parse', lambda: gin.parse_config('%s%s.%s = 1' % (pre, b, prm))),
-                      ('query', lambda: gin.query_parameter(pre + b + '.' + prm)),
-                      ('get_configurable', lambda: gin.get_configurable(b))]:
-      try:
-        fn()
-        ctx.check(False, 'unknown-spelling-accepted', '%s with unknown name %r did not raise' % (label, b))
-      except ValueError:
-        ctx.count('oracle_evals')
-      except Exception as e:  # pylint: disable=broad-except
-        ctx.check(False, 'unknown-name-wrong-exception', '%s with unknown %r raised %s' % (label, b, type(e).__name__))
-      ctx.check(snapshot(gin) == snap, 'unknown-spelling-changed-config', '%s with unknown %r changed the config' % (label, b))
+    # a name extended by a component nobody has; a string suffix that is not a suffix of components (`up` of `dup`)
+    probe_unknown(ctx, gin, sc, 'nosuch.' + ws if case['hj'] % 3 else 'up', prm)
 
   # finalize hooks
   if case['hook']:
@@ -411,13 +561,306 @@ def run_api(ctx, case):
                 gc._CONFIG.get(('t', p.selector), {}).get(other) == 'h1', 'hook-bindings-not-applied',
                 'hook bindings not applied under canonical keys: %r' % dict(gc._CONFIG))
     _HOOK_PLAN[0] = _HOOK_PLAN[1] = None
+  rs = rs_spelling
   ctx.fp('api', case['target'], case['write'], case['read'], ws.count('.'), rs.count('.'), bool(sc), case['hook'], case['probe_bad'])
   ctx.sample({'kind': 'api', 'full': p.selector, 'write': [case['write'], pre + ws + '.' + prm], 'read': [case['read'], rs],
               'hook': case['hook']}, cap=4)
 
 
+# ---------------------------------------------------------------------------
+# API level, histories of registrations: a family of configurables sharing one (fresh) name is registered one member at a
+# time; what a spelling means is decided by the names registered *now*, through every API alike.
+
+HIST_LAYOUTS = [['p.x', 'p.z'], ['p.x', 'q.x'], ['p.x', 'r.p.x'], ['r.p.x', 'p.x'], ['x', 'p.x', 'q.p.x'], ['q.p.x', 'p.x', 'x'],
+                ['p.x', 'p.z', 'q.z'], ['px.y', 'x.y'], ['x', 'y.x'], ['y.x', 'x', 'p.y.x']]
+GOOD_ROUTES = ['query', 'get_bindings', 'call', 'reference', 'obj-bindings', 'obj-call']
+HIST_VALUES = [0, '', None, False]
+
+
+def gen_history_case(rng):
+  if rng.random() < 0.7:
+    mods = list(rng.choice(HIST_LAYOUTS))
+  else:
+    pool = ['.'.join(t) for d in (1, 2, 3) for t in itertools.product(['x', 'y', 'p'], repeat=d)]
+    mods = rng.sample(pool, rng.choice([2, 3]))
+  steps = [{'member': rng.randrange(3), 'wi': rng.randrange(8), 'write': rng.choice(['str', 'tuple', 'text', 'block']),
+            'scope': rng.choice(['', '', 's', 's/t']), 'param': rng.choice(['a', 'b']), 'read': rng.choice(GOOD_ROUTES),
+            'ri': rng.randrange(8), 'qi': rng.randrange(60), 'falsy': rng.randrange(len(HIST_VALUES)) if rng.random() < 0.25 else None}
+           for _ in mods]
+  return {'kind': 'history', 'mods': mods, 'steps': steps}
+
+
+class Member:
+  """A light configurable of the family: records what it is called with (probes.build costs three times the registration)."""
+
+  def __init__(self, gin, name, mod):
+    calls = self.calls = []
+
+    def fn(a='dflt-a', b='dflt-b'):
+      calls.append({'a': a, 'b': b})
+    fn.__name__ = fn.__qualname__ = name
+    self.original = fn
+    self.conf = gin.external_configurable(fn, name=name, module=mod)
+    self.selector = mod + '.' + name
+
+
+def family_store(gin):
+  from gin import config as gc
+  cons = _FAMILY['cons'].selector
+  return {k: dict(v) for k, v in gc._CONFIG.items() if k[1] != cons}
+
+
+def read_good(ctx, gin, member, spelling, sc, route, store, label):
+  """Read the entry of `member` through the unambiguous `spelling` and `route`; expected values come from the model store."""
+  pre = sc + '/' if sc else ''
+  full = member.selector
+  own = store.get((sc, full), {})
+  over = models.overlay(store, full, sc.split('/') if sc else [])
+  dflt = {'a': 'dflt-a', 'b': 'dflt-b'}
+  received = dict(dflt, **over)
+  ctx.count('api_roundtrips')
+  try:
+    if route == 'query':
+      for prm in ('a', 'b'):
+        try:
+          got = ('ok', gin.query_parameter(pre + spelling + '.' + prm))
+        except Exception:  # pylint: disable=broad-except
+          got = ('raised',)
+        exp = ('ok', own[prm]) if prm in own else ('raised',)
+        ctx.check(got[0] == exp[0] and (got[0] == 'raised' or teq(got[1], exp[1])), 'spelling-dependent-read',
+                  '%s: query_parameter(%r) -> %r, model %r (%s is %s)' % (label, pre + spelling + '.' + prm, got, exp, spelling, full))
+      return
+    if route == 'get_bindings':
+      got = gin.get_bindings(pre + spelling, resolve_references=False)
+      exp = over
+    elif route == 'obj-bindings':
+      with scope_ctx(gin, sc):
+        got = gin.get_bindings(member.original if len(spelling) % 2 else member.conf)
+      exp = over
+    else:
+      del member.calls[:]
+      if route == 'call':
+        gin.get_configurable(pre + spelling)()
+      elif route == 'obj-call':
+        with scope_ctx(gin, sc):
+          gin.get_configurable(member.conf if len(spelling) % 2 else member.original)()
+      else:
+        gin.parse_config('c8cons.v = @%s%s()' % (pre, spelling))
+        _FAMILY['cons'].conf()
+      got = member.calls[0] if len(member.calls) == 1 else 'CALLED %d TIMES' % len(member.calls)
+      exp = received
+    ctx.check(teq_unordered_dict(got, exp), 'spelling-dependent-read', '%s: %s through %r (= %s, scope %r) -> %r, model %r' %
+              (label, route, spelling, full, sc, got, exp))
+  except Exception as e:  # pylint: disable=broad-except
+    ctx.check(False, 'object-spelling-not-resolved' if route.startswith('obj-') else 'unambiguous-spelling-rejected',
+              '%s: %s through %r (= %s, the only match among %r) raised %s: %s' %
+              (label, route, spelling, full, 'the registered names', type(e).__name__, str(e)[:200]))
+
+
+def history_queries(names, last):
+  qs = set()
+  for n in names:
+    for sfx in suffixes(n):
+      qs.add(sfx)
+      qs.add('nosuch.' + sfx)
+      if len(sfx.split('.')[0]) > 1 and sfx != last:
+        qs.add(sfx[1:])       # a string suffix cutting a component in two: matches only if it is itself a suffix of components
+  qs.add(last[1:])
+  return sorted(qs)
+
+
+def run_history(ctx, case):
+  import gin
+  gin.clear_config()
+  _HOOK_PLAN[0] = _HOOK_PLAN[1] = None
+  last = 'hh%d%s' % (next(_UNIQ), ctx.uid)
+  members, names, store, used = [], set(), {}, []
+  shape = []
+  for k, (mod, st) in enumerate(zip(case['mods'], case['steps'])):
+    p = Member(gin, last, mod)
+    ctx.bucket('hist:registration')
+    if any(n.endswith('.' + p.selector) or p.selector.endswith('.' + n) for n in names):
+      ctx.bucket('hist:exact-name-is-suffix-of-other')
+    members.append(p)
+    names.add(p.selector)
+    byfull = {m.selector: m for m in members}
+    label = 'after registering %s' % ', '.join(m.selector for m in members)
+    ctx.check(family_store(gin) == store, 'store-key-not-canonical', '%s: store %r, model %r' % (label, family_store(gin), store))
+    # (a) every spelling a value was written through earlier is judged against the names registered now
+    for (spell, sc, prm, was) in used:
+      r = models.resolve_suffix(names, spell)
+      if len(r) > 1:
+        ctx.bucket('hist:spelling-became-ambiguous')
+        probe_ambiguous(ctx, gin, sc, spell, prm)
+      elif r == [was]:
+        ctx.bucket('hist:spelling-still-good')
+        read_good(ctx, gin, byfull[was], spell, sc, GOOD_ROUTES[(st['qi'] + len(spell)) % 4], store, label + ' (spelling used before)')
+      else:
+        ctx.bucket('hist:spelling-moved-to-other-entry')   # it now *is* the complete name of a later registration
+        for route in ('query', 'get_bindings', 'call'):
+          read_good(ctx, gin, byfull[r[0]], spell, sc, route, store, label + ' (spelling used before for %s)' % was)
+    # (b) the whole universe of spellings, one route each
+    sc, prm = st['scope'], st['param']
+    qs = history_queries(names, last)
+    for j, q in enumerate(qs):
+      if (j + st['qi']) % ((len(qs) + 3) // 4):   # about four of them, which ones varies with the case
+        continue
+      r = models.resolve_suffix(names, q)
+      if len(r) == 1:
+        read_good(ctx, gin, byfull[r[0]], q, sc, GOOD_ROUTES[(st['qi'] + j) % 4], store, label)
+      elif r:
+        ctx.bucket('hist:ambiguous')
+        probe_ambiguous(ctx, gin, sc, q, prm, pick=st['qi'] + j)
+      else:
+        ctx.bucket('hist:unknown')
+        probe_unknown(ctx, gin, sc, q, prm, pick=st['qi'] + j)
+    # (c) a value written through one unambiguous spelling of one member ...
+    tgt = members[st['member'] % len(members)]
+    good, _ = spellings(tgt.selector, names)
+    ws, rs = good[st['wi'] % len(good)], good[st['ri'] % len(good)]
+    value = ['val', k, st['wi']] if st['falsy'] is None else HIST_VALUES[st['falsy']]
+    try:
+      write_binding(gin, st['write'], sc, ws, prm, value)
+    except Exception as e:  # pylint: disable=broad-except
+      ctx.check(False, 'unambiguous-spelling-rejected', '%s: writing %s.%s (= %s) via %s raised %s: %s' %
+                (label, ws, prm, tgt.selector, st['write'], type(e).__name__, str(e)[:200]))
+      break
+    store.setdefault((sc, tgt.selector), {})[prm] = value
+    used.append((ws, sc, prm, tgt.selector))
+    got = family_store(gin)
+    ctx.check(set(got) == set(store) and all(teq_unordered_dict(got[key], store[key]) for key in store), 'store-key-not-canonical',
+              '%s: after writing %s.%s via %s the store is %r, model %r' % (label, ws, prm, st['write'], got, store))
+    # ... is read through another spelling / API, and through the objects themselves for every member
+    read_good(ctx, gin, tgt, rs, sc, st['read'], store, label)
+    final = k == len(case['mods']) - 1
+    for m in (members if final else [tgt]):
+      ctx.bucket('hist:object-spelling')
+      read_good(ctx, gin, m, 'x' * (k + st['ri']), sc, 'obj-bindings' if (st['ri'] + k) % 2 else 'obj-call', store, label)
+    if final or k == 0:   # (k == 0: a single member, the bare name is the shortest)
+      check_sections(ctx, gin.config_str(), 'config-str', names, last, entries=list(store))
+    if final:
+      check_sections(ctx, gin.operative_config_str(), 'operative-config-str', names, last)
+    shape.append((st['write'], st['read'], ws.count('.'), bool(sc)))
+  ctx.fp('history', tuple(m.count('.') for m in case['mods']),
+         sum(1 for a in names for b in names if a != b and b.endswith('.' + a)), tuple(shape))
+  ctx.sample({'kind': 'history', 'names': sorted(names), 'writes': [list(u) for u in used]}, cap=6)
+  gin.clear_config()
+
+
+# ---------------------------------------------------------------------------
+# Constants: the same suffix rule, through `%name`, query_parameter and get_bindings.
+
+CONST_LAYOUTS = [(['pa.one', 'pb.two'], 'pc.one'), (['pa.one', 'pb.one'], 'pc.two'), (['pa.one', 'pa.two', 'pb.one'], None),
+                 (['one', 'two'], 'three'), (['x.pa.one', 'y.pa.one', 'pb.two'], 'z.pb.two'), (['pa.one'], 'pb.one'),
+                 (['pa.one', 'pb.two'], None)]
+CONST_VALUES = [1, 'two', [3, 'x'], 0, '', 2.5, {'k': 1}, False]
+CONST_ROUTES = ['query', 'macro-flat', 'macro-block', 'macro-list', 'macro-scoped', 'get_bindings']
+
+
+def gen_const_case(rng):
+  mods, later = rng.choice(CONST_LAYOUTS)
+  return {'kind': 'const', 'mods': list(mods), 'later': later, 'define': rng.choice(['constant', 'constant', 'enum']),
+          'values': rng.sample(range(len(CONST_VALUES)), 4), 'rot': rng.randrange(60)}
+
+
+def read_constant(gin, route, q):
+  cons = _FAMILY['cons']
+  if route == 'query':
+    return gin.query_parameter(q)
+  if route == 'macro-flat':
+    gin.parse_config('c8cons.v = %%%s' % q)
+  elif route == 'macro-block':
+    gin.parse_config('c8cons:\n  v = %%%s\n' % q)
+  elif route == 'macro-list':
+    gin.parse_config('c8cons.v = [%%%s, 1]' % q)
+  elif route == 'macro-scoped':
+    gin.parse_config('sc/c8cons.v = %%%s' % q)
+  else:
+    gin.parse_config('c8cons.v = %%%s' % q)
+    return gin.get_bindings('c8cons')['v']
+  mark = probes.RECORDER.mark()
+  with scope_ctx(gin, 'sc' if route == 'macro-scoped' else ''):
+    cons.conf()
+  got = probes.RECORDER.since(mark, cons.pid)[0].received['v']
+  if route == 'macro-list':
+    if not (type(got) is list and len(got) == 2 and got[1] == 1):
+      return ('MALFORMED', got)
+    return got[0]
+  return got
+
+
+def check_constants(ctx, gin, consts, last, label, rot):
+  names = set(consts)
+  qs = {sfx for n in names for sfx in suffixes(n)}
+  full = sorted(names)[rot % len(names)]
+  qs.update(['nosuch.' + full, 'nosuch.' + full.split('.', 1)[1], last[1:]])
+  for j, q in enumerate(sorted(qs)):
+    r = models.resolve_suffix(names, q)
+    ctx.bucket('const:unique' if len(r) == 1 else 'const:ambiguous' if r else 'const:unknown')
+    # two of the six routes for a name that matches something (which two varies with the case), one for an unknown name
+    for route in [CONST_ROUTES[(rot + j) % 6], CONST_ROUTES[(rot + j + 3) % 6]][:2 if r else 1]:
+      snap = snapshot(gin)
+      try:
+        got = ('ok', read_constant(gin, route, q))
+      except Exception as e:  # pylint: disable=broad-except
+        got = ('raised', type(e).__name__, str(e)[:120])
+      if len(r) == 1:
+        exp = consts[r[0]]
+        if not exp:
+          ctx.bucket('const:falsy-value')
+        ok = got[0] == 'ok' and (type(got[1]) is type(exp) and got[1] == exp if isinstance(exp, enum.Enum) else teq(got[1], exp))
+        ctx.check(ok, 'constant-spelling-dependent-read', '%s: %s of %r -> %r, model: %s = %r (defined %r)' %
+                  (label, route, q, got, r[0], exp, sorted(names)))
+      elif r:
+        ctx.check(got[0] == 'raised', 'ambiguous-constant-accepted', '%s: %s of %r -> %r although it matches %r' % (label, route, q, got, r))
+        if route == 'query':
+          ctx.check(snapshot(gin) == snap, 'ambiguous-spelling-changed-config', '%s: query of ambiguous constant %r changed the config' % (label, q))
+      else:
+        ctx.check(got[0] == 'raised', 'unknown-constant-accepted', '%s: %s of %r -> %r although no constant matches (defined %r)' %
+                  (label, route, q, got, sorted(names)))
+
+
+def run_const(ctx, case):
+  import gin
+  gin.clear_config(clear_constants=True)
+  _HOOK_PLAN[0] = _HOOK_PLAN[1] = None
+  last = 'KK%d%s' % (next(_UNIQ), ctx.uid)    # (last[1:] is an identifier too: a string suffix, not a suffix of components)
+  consts = {}
+  ctx.bucket('const:define:' + case['define'])
+
+  def define(mod, i):
+    if case['define'] == 'enum':
+      cls = enum.Enum(last, {'A': i + 1, 'B': 'b%d' % i})
+      gin.constants_from_enum(cls, module=mod)
+      consts['%s.%s.A' % (mod, last)] = cls.A
+      consts['%s.%s.B' % (mod, last)] = cls.B
+    else:
+      v = CONST_VALUES[case['values'][i % len(case['values'])]]
+      gin.constant('%s.%s' % (mod, last), v)
+      consts['%s.%s' % (mod, last)] = v
+
+  for i, mod in enumerate(case['mods']):
+    define(mod, i)
+  check_constants(ctx, gin, consts, last, 'constants %r' % sorted(consts), case['rot'])
+  if case['later']:
+    before = {q for n in consts for q in suffixes(n) if len(models.resolve_suffix(set(consts), q)) == 1}
+    define(case['later'], len(case['mods']))
+    if any(len(models.resolve_suffix(set(consts), q)) > 1 for q in before):
+      ctx.bucket('const:spelling-became-ambiguous')
+    check_constants(ctx, gin, consts, last, 'constants %r (the last defined later)' % sorted(consts), case['rot'] + 1)
+  ctx.fp('const', tuple(case['mods']), case['later'], case['define'])
+  ctx.sample({'kind': 'const', 'names': sorted(consts)}, cap=8)
+  gin.clear_config(clear_constants=True)
+
+
 def iter_cases(ctx, rng, n):
   for i in range(n):
+    if i % 20 == 3 or i % 40 == 13:
+      yield gen_history_case(rng)
+      continue
+    if i % 40 == 7:
+      yield gen_const_case(rng)
+      continue
     if i % 20 == 19:
       yield {'kind': 'api-special', 'which': rng.choice(['explicit-macro-reference', 'class-registered-twice', 'method-with-class-module']), 'n': rng.randrange(1 << 30),
              'spelling': rng.choice(['macro', 'gin.macro'])}
@@ -447,8 +890,8 @@ def run_special(ctx, case):
       got = probes.RECORDER.log[-1].received['v']
       ctx.check(got == 5, 'spelling-dependent-read', 'explicit macro reference delivered %r' % (got,))
   else:
-    n = case['n'] % 100000
-    cname, mname = 'C8K%d_%s' % (n, ctx.uid), 'c8m%d_%s' % (n, ctx.uid)
+    n = '%d_%d' % (case['n'] % 100000, next(_UNIQ))   # (the drawn number alone repeats within a long run: the names must be fresh)
+    cname, mname = 'C8K%s_%s' % (n, ctx.uid), 'c8m%s_%s' % (n, ctx.uid)
     g = {'__name__': 'c8dyn'}
     exec('class %s:\n  def __init__(self, c=0):\n    self.c = c\n  def %s(self, arg=0):\n    return arg\n' % (cname, mname), g)
     cls = g[cname]
@@ -479,6 +922,10 @@ def run_case(ctx, case):
     return run_special(ctx, case)
   if case['kind'] == 'map':
     run_map(ctx, case)
+  elif case['kind'] == 'history':
+    run_history(ctx, case)
+  elif case['kind'] == 'const':
+    run_const(ctx, case)
   else:
     run_api(ctx, case)
 
@@ -491,7 +938,9 @@ def finish(ctx):
 LEVEL_TEXT = ('Runtime monitor with a suffix-resolution reference model evaluated after every operation of generated SelectorMap '
               'histories (all query APIs over the whole name universe, tree/flat agreement, copy independence) and of API-level '
               'write/read pairs through different spellings; the thorough tier enumerates a 14-name universe exhaustively '
-              '(all subsets <=4 x insertion orders x single pops).')
+              '(all subsets <=4 x insertion orders x single pops). Also at API level: families registered one member at a time '
+              '(every spelling re-judged after every registration, a model of the binding store), constants, the object spelling, '
+              'the names reported by config_str/operative_config_str.')
 LEVEL_NOTE = 'Trusted: the 4-line suffix model. Exhaustive only inside the stated small scope; larger name sets are sampled.'
 TECHNIQUE = 'runtime reference-model monitor after every operation of generated histories + exhaustive small-scope enumeration'
 DESIGN_REF = 'DESIGN.md section 4, C08'
